@@ -221,7 +221,9 @@ func TestVerifRealOS(t *testing.T) {
 		Tags: []string{"realos:dialndp"}, ImplViolation: strings.Join(viol, "; ")})
 
 	// ---- the real Dialer.dial + setAutoconf + done closure against the real sysctl (both initial values)
-	for _, initial := range []string{"1", "0"} {
+	// (the kernel accepts any integer and treats non-zero as enabled; for 2 and -1 only "disabled while a connection is
+	// held" is asserted: the State interface is boolean, the value itself cannot be put back)
+	for _, initial := range []string{"1", "0", "2", "-1"} {
 		id := "realos-autoconf-" + initial
 		if err := roSysctl(ifa.Name, "autoconf", initial); err != nil {
 			out.Emit(verifh.Case{ID: id, Observed: err.Error(), Tags: []string{"realos:unavailable"}})
@@ -245,7 +247,7 @@ func TestVerifRealOS(t *testing.T) {
 			v = fmt.Sprintf("the task ran %d times", calls)
 		case during != "0\n":
 			v = fmt.Sprintf("autoconf is %q while an advertising connection is held", during)
-		case after != before:
+		case after != before && (initial == "0" || initial == "1"):
 			v = fmt.Sprintf("autoconf was %q before and is %q after the connection was cleaned up", before, after)
 		}
 		out.Emit(verifh.Case{ID: id, Input: map[string]any{"kind": "realos-autoconf", "initial": initial},
